@@ -327,8 +327,9 @@ def mon_c05(ctx, out):
                 if o != closed_info[idx]:
                     out.append(("C05", "closed:changed-after-close", k, f"order {idx}: {closed_info[idx]} -> {o}"))
                     return
-            key = (o["is_open"], o["filled"], o["qfilled"], sum(o["fees"].values(), ZERO))
-            pk = None if p is None else (p["is_open"], p["filled"], p["qfilled"], sum(p["fees"].values(), ZERO))
+            key = (o["is_open"], o["filled"], o["qfilled"], sum(o["fees"].values(), ZERO), len(o["loans"]))
+            pk = None if p is None else (p["is_open"], p["filled"], p["qfilled"], sum(p["fees"].values(), ZERO),
+                                         len(p["loans"]))
             if key != pk:
                 changes.setdefault(idx, []).append((k, key))
             req = ctx.order_req.get(idx)
@@ -386,14 +387,16 @@ def mon_c05(ctx, out):
             return
         last_when = w
         fee = sum((F(x) for x in info.fees.values()), ZERO)
-        by.setdefault(idx, []).append((info.is_open, F(info.amount_filled), F(info.quote_amount_filled), fee))
+        by.setdefault(idx, []).append((info.is_open, F(info.amount_filled), F(info.quote_amount_filled), fee,
+                                       len(info.loan_ids)))
     for idx, ch in changes.items():
         exp = [c[1] for c in ch]
         got = by.get(idx, [])
         if got != exp:
             out.append(("C05", "events:sequence-mismatch", ch[0][0],
-                        f"order {idx}: events {[(a, str(b), str(c), str(d)) for a, b, c, d in got]} but the order went "
-                        f"through {[(a, str(b), str(c), str(d)) for a, b, c, d in exp]}"))
+                        f"order {idx}: events {[(a, str(b), str(c), str(d), n) for a, b, c, d, n in got]} but the order went "
+                        f"through {[(a, str(b), str(c), str(d), n) for a, b, c, d, n in exp]} "
+                        f"(open, filled, quote, fees, loans)"))
             return
     for idx in by:
         if idx not in changes:
@@ -537,6 +540,10 @@ def mon_c08(ctx, out):
         p = case["sym_prec"].get(s)
         if p is not None and not on_grid(F(Decimal(str(v))), p):
             grid_premise = False
+    for i, pi in case.get("pair_info", {}).items():
+        b, q = case["pairs"][int(i)]
+        if pi[0] > case["sym_prec"].get(b, pi[0]) or pi[1] > case["sym_prec"].get(q, pi[1]):
+            grid_premise = False          # a pair traded on a finer grid than its symbols': balances follow the pair
     for acts in case["script"].values():
         for a in acts:
             if a[0] == "loan":
@@ -848,15 +855,65 @@ def mon_c11(ctx, out):
                                     f"order {idx} closed; loan {l['idx']} ({l['amount']} {l['sym']}) left open although "
                                     f"funds allow repaying it"))
                         return
+                # largest first: a loan left open must not have been affordable at its turn, i.e. with the funds there
+                # were before the repayments minus what strictly larger loans took
+                prevl = {l["idx"]: l for l in prev["loans"]}
+                repaid = [l for l in cands if not after[l["idx"]]["is_open"] and l["idx"] in o["loans"]]
+                if len(repaid) != len([l for l in cands if not after[l["idx"]]["is_open"]]):
+                    continue          # another order closed in the same step repaid loans too: funds cannot be attributed
+
+                def cost(l):
+                    c = {l["sym"]: l["amount"]}
+                    for sname, v in after[l["idx"]].get("paid", {}).items():
+                        c[sname] = c.get(sname, ZERO) + v - prevl[l["idx"]].get("paid", {}).get(sname, ZERO)
+                    return c
+                for l in left_open:
+                    funds = {sname: b["available"] for sname, b in snap["balances"].items()}
+                    for r in repaid:
+                        if r["amount"] <= l["amount"]:          # taken after l's turn: give it back
+                            for sname, v in cost(r).items():
+                                funds[sname] = funds.get(sname, ZERO) + v
+                    need = {l["sym"]: l["amount"]}
+                    for sname, v in after[l["idx"]]["outstanding"].items():
+                        need[sname] = need.get(sname, ZERO) + v
+                    smaller_repaid = [r for r in repaid if r["amount"] < l["amount"]]
+                    if smaller_repaid and all(funds.get(sname, ZERO) >= v for sname, v in need.items()):
+                        out.append(("C11", "autorepay:not-largest-first", k,
+                                    f"order {idx} closed; loan {l['idx']} ({l['amount']} {l['sym']}) was left open while the "
+                                    f"smaller loan {smaller_repaid[0]['idx']} ({smaller_repaid[0]['amount']}) was repaid, "
+                                    f"although the larger one was affordable at its turn"))
+                        return
 
 
 MONITORS = {"C01": mon_c01, "C02": mon_c02, "C04": mon_c04, "C05": mon_c05, "C06": mon_c06, "C07": mon_c07,
             "C08": mon_c08, "C09": mon_c09, "C10": mon_c10, "C11": mon_c11}
 
 
+def mon_listing_after_failures(tr, out):
+    """Listings stay exact after a bar whose processing raised: the open-order listing is compared with the orders
+    the exchange itself reports as open (nothing here depends on what the failing bar should have done)."""
+    ctx = Ctx(tr)
+    for k, st in enumerate(tr.steps):
+        op = st["op"]
+        if op[0] == "list" and st["reply"][0] == 2:
+            pi = op[1]
+            expect = [o["idx"] for o in st["snap"]["orders"] if o["is_open"] and
+                      (pi is None or (o["idx"] in ctx.order_req and ctx.order_req[o["idx"]][3] == pi))]
+            got = [x[0] for x in st["listing"]]
+            if got != expect:
+                out.append(("C05", "listing:open-orders-mismatch", k,
+                            f"get_open_orders({pi}) returned {got}, expected {expect} (after a bar whose processing raised)"))
+                return
+            for name, g, e in st.get("filters", []):
+                if g != e:
+                    out.append(("C05", "listing:get-orders-filter-mismatch", k, f"{name}: got {g}, expected {e}"))
+                    return
+
+
 def run_monitors(tr, which=None):
     # A bar whose processing raised (e.g. NoPrice while converting interest: a configuration without the prices its
     # lending conditions need) is outside the premises of the properties: monitor the history up to that bar only.
+    full_tr = tr
     for k, st in enumerate(tr.steps):
         if st["op"][0] == "bar" and st["reply"][0] == 3:
             import copy
@@ -887,4 +944,6 @@ def run_monitors(tr, which=None):
     for pid, fn in MONITORS.items():
         if which is None or pid in which:
             fn(ctx, out)
+    if full_tr is not tr and (which is None or "C05" in which) and not out:
+        mon_listing_after_failures(full_tr, out)
     return out
